@@ -16,6 +16,21 @@ theorem merge_is_per_base_sum (W : Nat) (hW : 0 < W) (streams : List (List MG.Va
     MG.sumAt (MG.merge W streams) p = MG.total streams p :=
   MG.merge_spec W hW streams hs p
 
+/-- the per-base total of a set of streams does not depend on the order in which the streams are given -/
+theorem total_perm (a b : List (List MG.Val)) (h : a.Perm b) (p : Nat) : MG.total a p = MG.total b p := by
+  induction h with
+  | nil => rfl
+  | cons x _ ih => simp only [MG.total, ih]
+  | swap x y l => simp only [MG.total]; omega
+  | trans _ _ ih₁ ih₂ => rw [ih₁, ih₂]
+
+/-- **The merged signal depends neither on the order of the input files nor on the window size**: the same sorted streams
+    given in any two orders, merged with any two window sizes, carry the same value at every base. -/
+theorem merge_signal_independent_of_input_order_and_window (W₁ W₂ : Nat) (h₁ : 0 < W₁) (h₂ : 0 < W₂)
+    (a b : List (List MG.Val)) (hp : a.Perm b) (hs : MG.AllSorted a) (p : Nat) :
+    MG.sumAt (MG.merge W₁ a) p = MG.sumAt (MG.merge W₂ b) p := by
+  rw [MG.merge_spec W₁ h₁ a hs p, MG.merge_spec W₂ h₂ b (fun l hl => hs l (hp.mem_iff.mpr hl)) p, total_perm a b hp p]
+
 /-- The merged output is in order, non-overlapping, every item non-empty with a non-zero value. -/
 theorem merge_output_sorted_disjoint (W : Nat) (streams : List (List MG.Val)) : MG.SortedOut 0 (MG.merge W streams) :=
   MG.merge_sorted W streams
